@@ -83,7 +83,8 @@ def run(ctx):
         judge(ctx, nest[i:i + 1500], "C04 nesting")
     ctx.coverage["family_nesting"] = len(nest)
     n = 1200 if ctx.tier == "quick" else 20000
-    srcs = [progs.generate(ctx.rng, max_depth=ctx.rng.choice([2, 3, 3, 4]))[0] for _ in range(n)]
+    srcs = [progs.generate_case(ctx.rng, max_depth=ctx.rng.choice([2, 3, 3, 4]), allow_singletons=True)[0] for _ in range(n)]
+    ctx.coverage["programs_with_singletons"] = sum(1 for c in srcs if isinstance(c, tuple))
     for i in range(0, len(srcs), 2000):
         judge(ctx, srcs[i:i + 2000], "C04")
     ctx.coverage["rule"] = ("typed random programs of the shared language run on the real interpreter, the real compiler+VM "
